@@ -182,7 +182,7 @@ pub fn gen_case(rng: &mut Rng, tier: Tier) -> Case {
 
     // queries
     let mut queries: Vec<Query> = vec![];
-    let nq = rng.range(3, 6) as usize;
+    let nq = rng.range(4, 7) as usize;
     let ks = [1usize, 1, 2, 3, 5, 10, 40, 512];
     let efs = [1usize, 2, 4, 8, 16, 32, 64, 512];
     for qi in 0..nq {
@@ -201,15 +201,19 @@ pub fn gen_case(rng: &mut Rng, tier: Tier) -> Case {
             }
             _ => gen_vec(rng, dims, pal),
         };
-        let (k, ef) = if qi == 0 {
+        let (k, ef, filtered) = if qi == 0 {
             // the covering query: wider than any index of this engine (<= 200 nodes)
-            (512, 512)
+            (512, 512, false)
         } else if qi == 1 {
-            (*rng.pick(&[1usize, 3, 10]), *rng.pick(&[1usize, 2, 8, 32]))
+            // the same through search_filtered
+            (512, 512, true)
+        } else if qi == 2 {
+            (*rng.pick(&[1usize, 3, 10]), *rng.pick(&[1usize, 2, 8, 32]), false)
         } else {
-            (*rng.pick(&ks), *rng.pick(&efs))
+            (*rng.pick(&ks), *rng.pick(&efs), rng.chance(1, 3))
         };
-        queries.push(Query { vec, k, ef });
+        let vec = if qi == 1 { queries[0].vec.clone() } else { vec };
+        queries.push(Query { vec, k, ef, filtered });
     }
 
     // extra SQ8 inputs: wide, narrow, offset and extreme ranges
